@@ -1,4 +1,5 @@
 import SwcVerif.Proofs.Dsu
+import SwcVerif.Proofs.DsuForest
 /-! # C18 — topology diagnosis and root repair tell the truth about any parent table
 
 Theorems about the models in `Model/Dsu.lean` (tied to the code by the `c18.dsu`, `c18.checkers`
@@ -361,9 +362,9 @@ theorem rootOfSorted_step (pids : List Int)
           (by omega)
 
 /-- **on a sorted forest the labelling is "root of my tree"**, so `is_single_root` is true exactly when
-there is exactly one root (partial: sorted tables; the general forest / cyclic case is covered by the
-exhaustive n ≤ 5 correspondence and the oracle only) -/
-theorem getDsu_sorted_forest_partial (pids : List Int)
+there is exactly one root (sorted tables: one pass suffices; `getDsu_forest` below covers every forest; tables
+with cycles are covered by the exhaustive n ≤ 5 correspondence and the oracle only) -/
+theorem getDsu_sorted_forest (pids : List Int)
     (hs : ∀ k (h : k < pids.length), pids[k] = -1 ∨ (0 ≤ pids[k] ∧ pids[k] < (k : Int))) :
     getDsu ((List.range pids.length).map Int.ofNat) pids
       = some ((List.range pids.length).map (rootOfSorted pids pids.length)) := by
@@ -462,6 +463,111 @@ theorem getDsu_sorted_forest_partial (pids : List Int)
   rw [hloop, hres]
 
 /-! ## root repair -/
+
+/-- the initial pointer of row `j`: its parent's row, or `j` itself for a root -/
+def ptr (pids : List Int) (j : Nat) : Nat := if pids.getD j (-1) = -1 then j else (pids.getD j (-1)).toNat
+
+/-- **on ANY forest — any numbering, parents before or after their children — the labelling is "root of my
+tree"**: `dp` is any depth measure that drops along every parent pointer (it exists exactly when the table is
+acyclic).  The `while` loop of `get_dsu` stops within the model's `n² + 2` passes. -/
+theorem getDsu_forest (pids : List Int) (dp : Nat → Nat)
+    (hv : ∀ k (h : k < pids.length), pids[k] = -1 ∨ (0 ≤ pids[k] ∧ pids[k] < pids.length))
+    (hd : ∀ k (h : k < pids.length), pids[k] ≠ -1 → dp (pids[k]).toNat < dp k)
+    (hb : ∀ k, k < pids.length → dp k < pids.length) :
+    getDsu ((List.range pids.length).map Int.ofNat) pids
+      = some ((List.range pids.length).map (Forest.rootFn (ptr pids) dp)) := by
+  have hget : ∀ k (h : k < pids.length), pids.getD k (-1) = pids[k] := by
+    intro k hk; simp [List.getD_eq_getElem?_getD, hk]
+  have hF : Forest pids.length (ptr pids) dp := by
+    refine ⟨?_, ?_, hb⟩
+    · intro i hi
+      unfold ptr
+      rw [hget i hi]
+      rcases hv i hi with e | ⟨h0, h1⟩
+      · rw [if_pos e]; exact hi
+      · rw [if_neg (by omega)]; omega
+    · intro i hi
+      unfold ptr
+      rw [hget i hi]
+      by_cases e : pids[i] = -1
+      · left; rw [if_pos e]
+      · right; rw [if_neg e]; exact hd i hi e
+  -- the initial pointer array
+  have hinit : dsuInit ((List.range pids.length).map Int.ofNat) pids =
+      some ((List.zip ((List.range pids.length).map Int.ofNat) pids).map
+        (fun ip => (if ip.2 = -1 then ip.1 else ip.2).toNat)) := by
+    unfold dsuInit
+    apply mapM_option_eq_some
+    intro ip hip
+    obtain ⟨k, hk, e⟩ := List.getElem_of_mem hip
+    have hk' : k < pids.length := by simp at hk; exact hk
+    simp only [List.getElem_zip, List.getElem_map, List.getElem_range] at e
+    subst e
+    simp only []
+    by_cases hroot : pids[k] = -1
+    · rw [if_pos hroot]
+      exact idxOf?_range _ k hk'
+    · rw [if_neg hroot]
+      rcases hv k hk' with e | ⟨h0, h1⟩
+      · exact absurd e hroot
+      · have := idxOf?_range pids.length pids[k].toNat (by omega)
+        rw [Int.toNat_of_nonneg h0] at this
+        exact this
+  generalize hl0 : (List.zip ((List.range pids.length).map Int.ofNat) pids).map
+        (fun ip => (if ip.2 = -1 then ip.1 else ip.2).toNat) = l0 at hinit
+  have htab0 : Tab l0 pids.length (ptr pids) := by
+    subst hl0
+    refine ⟨by simp, ?_⟩
+    intro j hj
+    unfold ptr
+    simp only [List.getD_eq_getElem?_getD]
+    rw [List.getElem?_eq_getElem (by simpa using hj), List.getElem?_eq_getElem hj]
+    simp only [List.getElem_map, List.getElem_zip, List.getElem_range, Option.getD_some]
+    split <;> rfl
+  have hanc : Anc pids.length (ptr pids) (ptr pids) := fun i _ => ⟨1, Nat.le_refl _, rfl⟩
+  -- the initial total depth is below n²
+  have htot : total dp (ptr pids) pids.length < pids.length * pids.length + 2 := by
+    have : ∀ m, m ≤ pids.length → total dp (ptr pids) m ≤ m * pids.length := by
+      intro m
+      induction m with
+      | zero => intro _; simp [total]
+      | succ m ih =>
+        intro hm
+        unfold total at ih ⊢
+        rw [List.range_succ, List.map_append, List.sum_append]
+        simp only [List.map_cons, List.map_nil, List.sum_cons, List.sum_nil, Nat.add_zero]
+        have h1 := ih (by omega)
+        have h2 := hb (ptr pids m) (hF.closed m (by omega))
+        have : (m + 1) * pids.length = m * pids.length + pids.length := Nat.succ_mul m pids.length
+        omega
+    have := this pids.length (Nat.le_refl _)
+    omega
+  have hloop := jumpLoop_forest hF (pids.length * pids.length + 2) l0 (ptr pids) htab0 hanc htot
+  unfold getDsu
+  rw [hinit]
+  simp only [List.length_map, List.length_range, Option.bind_some]
+  exact hloop
+
+-- non-vacuity: a forest in which node 0 hangs from node 2 (parents after children) and there are two roots
+example : getDsu ((List.range 5).map Int.ofNat) [2, -1, 1, -1, 3] = some [1, 1, 1, 3, 3] := by decide +kernel
+example : (List.range 5).map (Forest.rootFn (ptr [2, -1, 1, -1, 3]) (fun k => [2, 0, 1, 0, 1].getD k 0)) = [1, 1, 1, 3, 3] := by
+  decide +kernel
+
+/-- … so on a forest all labels are equal exactly when there is a single root -/
+theorem forest_single_label_iff (n : Nat) (f dp : Nat → Nat) (hF : Forest n f dp) :
+    (∀ i j, i < n → j < n → Forest.rootFn f dp i = Forest.rootFn f dp j) ↔
+    (∀ a b, a < n → b < n → f a = a → f b = b → a = b) := by
+  constructor
+  · intro h a b ha hb ra rb
+    have ea : Forest.rootFn f dp a = a := hF.iter_root a ra _
+    have eb : Forest.rootFn f dp b = b := hF.iter_root b rb _
+    rw [← ea, ← eb]; exact h a b ha hb
+  · intro h i j hi hj
+    apply h
+    · exact hF.iter_lt _ i hi
+    · exact hF.iter_lt _ j hj
+    · exact hF.rootFn_is_root (dp i) i hi (Nat.le_refl _)
+    · exact hF.rootFn_is_root (dp j) j hj (Nat.le_refl _)
 
 theorem firstRootLoc_spec : ∀ (pids : List Int) (h : firstRootLoc pids < pids.length),
     pids[firstRootLoc pids] = -1
